@@ -8,7 +8,7 @@ Proof.
   set (ids := a :: b :: r). destruct (map split_snake ids) as [|first rest] eqn:E; [reflexivity|].
   destruct (Nat.eqb _ 0 && Nat.eqb _ 0); [reflexivity|].
   destruct (shrink _ _ _ _) as [p s]. destruct (Nat.eqb p 0 && Nat.eqb s 0); [reflexivity|].
-  destruct (all_non_empty_and_unique _); [|reflexivity].
+  destruct (all_non_empty_and_unique _ && _); [|reflexivity].
   rewrite map_length, <- E, map_length. reflexivity.
 Qed.
 
